@@ -65,7 +65,7 @@ def stored_names(stmts):
             elif isinstance(n, ast.Call):
                 f = n.func
                 if isinstance(f, ast.Attribute):
-                    calls.add(f.attr)
+                    calls.add((f.value.id, f.attr) if isinstance(f.value, ast.Name) else f.attr)
                     if f.attr in MUTATORS:
                         root_store(f.value)
                 elif isinstance(f, ast.Name):
@@ -352,9 +352,28 @@ class Exec(CallsMixin, Interp):
                 self.havoc_field(n)
             else:
                 names.add(n)
-        # callee effects
-        for cn, c in self.w.contracts.items():
-            if c.short in calls or (c.short == '__init__' and c.cls in calls):
+        # callee effects (receiver class resolved through the current environment where possible)
+        plain_calls = set()
+        resolved = []
+        for cl in calls:
+            if isinstance(cl, tuple):
+                recv = self.env.get(cl[0])
+                rk = recv.kind if isinstance(recv, V) else None
+                if isinstance(rk, K.Opt):
+                    rk = rk.inner
+                if isinstance(rk, K.Ref):
+                    m = self.w.find_method(rk.cls, cl[1])
+                    if m is not None:
+                        resolved.append(m)
+                    continue
+                if isinstance(rk, (K.Seq, K.Set, K.Map, K._Str, K.Rec)):
+                    continue
+                plain_calls.add(cl[1])
+            else:
+                plain_calls.add(cl)
+        calls = plain_calls
+        for cn, c in list(self.w.contracts.items()) + [(m.name, m) for m in resolved]:
+            if c in resolved or c.short in calls or (c.short == '__init__' and c.cls in calls):
                 todo = [c]
                 seen = set()
                 while todo:
@@ -375,6 +394,7 @@ class Exec(CallsMixin, Interp):
                         ex = extract.find(cc.module, cc.name)
                         n2, f2, c2 = stored_names(ex.node.body)
                         fields |= f2
+                        c2 = {x[1] if isinstance(x, tuple) else x for x in c2}
                         for c3n, c3 in self.w.contracts.items():
                             if c3.short in c2:
                                 todo.append(c3)
@@ -616,21 +636,24 @@ class Exec(CallsMixin, Interp):
         # exit: i == n
 
     def set_to_seq(self, s):
-        """Iteration order of a set: an arbitrary (fresh, unconstrained) permutation."""
+        """Iteration order of a set: an arbitrary (fresh, unconstrained) enumeration without repeats."""
         k = K.Seq(s.kind.elem)
         seq = self.p.fresh_value(k, 'setorder')
         n = K.seq_len(seq)
-        i, j = self.p.fresh('so!i', z3.IntSort()), self.p.fresh('so!j', z3.IntSort())
-        x = self.p.fresh('so!x', s.kind.elem.leaf_sorts()[0])
-        pos = self.p.fresh('so!pos', z3.ArraySort(s.kind.elem.leaf_sorts()[0], z3.IntSort()))
-        arr = seq.terms[1]
+        i = self.p.fresh('so!i', z3.IntSort())
+        sorts = s.kind.elem.leaf_sorts()
+        xs = [self.p.fresh('so!x', srt) for srt in sorts]
+        pos = self.p.fresh('so!pos', K.nested_array_sort(sorts, z3.IntSort()))
         self.p.assume(n == s.terms[0])
+        at_i = [z3.Select(a, i) for a in seq.terms[1:]]
         self.p.assume(z3.ForAll([i], z3.Implies(z3.And(0 <= i, i < n),
-                                                z3.And(z3.Select(s.terms[1], z3.Select(arr, i)),
-                                                       z3.Select(pos, z3.Select(arr, i)) == i))))
-        self.p.assume(z3.ForAll([x], z3.Implies(z3.Select(s.terms[1], x),
-                                                z3.And(0 <= z3.Select(pos, x), z3.Select(pos, x) < n,
-                                                       z3.Select(arr, z3.Select(pos, x)) == x))))
+                                                z3.And(K.nsel(s.terms[1], at_i),
+                                                       K.nsel(pos, at_i) == i))))
+        px = K.nsel(pos, xs)
+        self.p.assume(z3.ForAll(xs, z3.Implies(K.nsel(s.terms[1], xs),
+                                               z3.And(0 <= px, px < n,
+                                                      *[z3.Select(a, px) == x for a, x in zip(seq.terms[1:], xs)]))))
+        self.last_set_order = seq
         return seq
 
     def comprehension(self, elt, gens, what):
